@@ -355,6 +355,16 @@ func c12RunJob(job c12Job, id *idp.Identity) []c12Fail {
 		}); p {
 			fails = append(fails, c12Fail{"C12:panic:NewFromEntryHash", msg})
 		}
+		// the same without LogOptions.ID (the field is optional), and through NewFromEntry's id-less path
+		if p, msg := c12Guard(func() {
+			l, err := ipfslog.NewFromEntryHash(ctx, api, id, head, &ipfslog.LogOptions{IO: io}, &ipfslog.FetchOptions{})
+			if err == nil && l != nil {
+				_ = l.Values().Slice()
+				_ = l.GetID()
+			}
+		}); p {
+			fails = append(fails, c12Fail{"C12:panic:NewFromEntryHash", "without LogOptions.ID: " + msg})
+		}
 		if job.Manifest != "" {
 			mc, _ := cid.Decode(job.Manifest)
 			if p, msg := c12Guard(func() {
